@@ -62,12 +62,12 @@ fn model(seed: u64) -> Model {
     Model { rules, toks, precs, avoid, epp, expect: if r.below(4) == 0 { Some(r.below(3)) } else { None }, expectrr: if r.below(5) == 0 { Some(r.below(2)) } else { None } }
 }
 
-struct Layout { sep: &'static str, tight: bool, dq: bool, comments: bool, kind: u8 }   // kind 0 Original/NoAction-style, 1 Original UserAction, 2 Grmtools, 3 Eco
+struct Layout { sep: &'static str, tight: bool, dq: bool, comments: bool, cmt: &'static str, kind: u8 }   // kind 0 Original/NoAction-style, 1 Original UserAction, 2 Grmtools, 3 Eco
 
 fn render(m: &Model, l: &Layout) -> String {
     let q = if l.dq { '"' } else { '\'' };
     let tok = |t: usize| -> String { if m.toks[t].1 { m.toks[t].0.clone() } else { format!("{}{}{}", q, m.toks[t].0, q) } };
-    let ws = |s: &mut String| { s.push_str(l.sep); if l.comments { s.push_str("/* c */"); s.push_str(l.sep); } };
+    let ws = |s: &mut String| { s.push_str(l.sep); if l.comments { s.push_str(l.cmt); s.push_str(l.sep); } };
     let mut s = String::new();
     if l.comments { s.push_str("// a grammar\n"); }
     s.push_str("%start "); s.push_str(&m.rules[0].0); s.push('\n');
@@ -173,13 +173,14 @@ fn check(m: &Model, l: &Layout) -> Result<(), String> {
     Ok(())
 }
 
-const LAYOUTS: &[(&str, bool, bool, bool)] = &[(" ", false, false, false), ("\n", false, true, false), (" ", true, false, false), ("\t", false, false, true), ("\n  ", true, true, false), (" ", false, true, true)];
+// (the last layout: a block comment that runs over several lines, one of which starts with a slash, and holds a star)
+const LAYOUTS: &[(&str, bool, bool, bool, &str)] = &[(" ", false, false, false, ""), ("\n", false, true, false, ""), (" ", true, false, false, ""), ("\t", false, false, true, "/* c */"), ("\n  ", true, true, false, ""), (" ", false, true, true, "/* c */"), (" ", false, false, true, "/* c\n/ d *\n/ e\n*/")];
 
 pub fn run(seed: u64, layout: usize, kind: u8) -> Outcome {
     let expected = "every rendering of the abstract grammar builds exactly that grammar, with spans that read the defining text".to_string();
     let m = model(seed);
-    let (sep, tight, dq, comments) = LAYOUTS[layout % LAYOUTS.len()];
-    let l = Layout { sep, tight, dq, comments, kind };
+    let (sep, tight, dq, comments, cmt) = LAYOUTS[layout % LAYOUTS.len()];
+    let l = Layout { sep, tight, dq, comments, cmt, kind };
     match catch_unwind(AssertUnwindSafe(|| check(&m, &l))) {
         Err(_) => Outcome { fails: true, observed: format!("panic on {:?}", render(&m, &l)), expected },
         Ok(Ok(())) => Outcome { fails: false, observed: "as the model".into(), expected },
